@@ -1085,6 +1085,11 @@ static ASMJIT_INLINE Error BaseRAPass_calculateInOutKill(
       block->clear_flags(RABlockFlags::kIsEnqueued);
 
       for (RABlock* predecessor : block->predecessors()) {
+        // Unreachable blocks (dead code that jumps into live code) are not part of POV and have no live bits.
+        if (!predecessor->is_reachable()) {
+          continue;
+        }
+
         Support::BitWord changed = BaseRAPass_recalculateInOut<BitMutator>(predecessor, multi_work_reg_count_as_bit_words, block);
         if (Support::bool_and(changed, !predecessor->is_enqueued())) {
           predecessor->add_flags(RABlockFlags::kIsEnqueued);
@@ -1901,7 +1906,8 @@ Error BaseRAPass::set_shared_assignment(uint32_t shared_assignment_id, const RAA
   Support::Array<uint32_t, Globals::kNumVirtGroups> shared_assigned {};
 
   for (RABlock* block : blocks()) {
-    if (block->shared_assignment_id() == shared_assignment_id) {
+    // Unreachable blocks sharing the assignment (dead code with an unknown jump) have no live bits and are never allocated.
+    if (block->shared_assignment_id() == shared_assignment_id && block->is_reachable()) {
       ASMJIT_ASSERT(!block->has_entry_assignment());
 
       PhysToWorkMap* entry_phys_to_work_map = clone_phys_to_work_map(from_assignment.phys_to_work_map());
